@@ -297,10 +297,9 @@ ParkNth == IF upd.phase = "save" THEN upd.nStore ELSE IF upd.phase = "built" THE
 
 UPark ==
     /\ upd.pc = "run" /\ upd.mayPark /\ ParkPoint # ""
-    /\ ParkPoint = "fs.store" \/ ParkNth = 1       \* the executor parks at the first build / the first switch
     /\ upd' = [upd EXCEPT !.pc = "parked", !.mayPark = FALSE, !.point = ParkPoint, !.nth = ParkNth]
     /\ out' = [ev |-> "begin", u |-> "A", ep |-> upd.ep, method |-> "PUT", arg |-> [NoArg EXCEPT !.payload = upd.pl], parked |-> TRUE,
-               point |-> ParkPoint, nth |-> ParkNth, code |-> 0, obs |-> Obs(disk, eng, 0, FALSE)]
+               point |-> ParkPoint, nth |-> ParkNth, code |-> 0, obs |-> Obs(disk, eng, upd.calls, upd.hf)]
     /\ UNCHANGED <<disk, eng, up, dead, lock, sf, fault>>
 
 UResume ==
